@@ -485,7 +485,9 @@ def c15(ck, F, tier):
     _struct_common(ck, F, "move")
     ck.rule("MOVE-ORDER", "block move iterates reversed iff delta > 0", floor=6)
     guarded(ck, rs.move_order, F)
-
+    import rules_struct as rs_band
+    ck.rule("BAND", "every description of the band shifted by a single row/column move is the same interval", floor=10)
+    guarded(ck, rs_band.band_agree, F)
 
 def c33(ck, F, tier):
     import rules_struct as rs
@@ -505,7 +507,9 @@ def c33(ck, F, tier):
     guarded(ck, rs.triple_cut, F)
     import rules_pcfg as rp
     guarded(ck, rp.pcfg, F)
-
+    import rules_struct as rs_band
+    ck.rule("BAND", "every description of the band shifted by a single row/column move is the same interval", floor=10)
+    guarded(ck, rs_band.band_agree, F)
 
 def c31(ck, F, tier):
     import rules_struct as rs
@@ -541,7 +545,9 @@ def c27(ck, F, tier):
     guarded(ck, rs.spill_rules, F)
     guarded(ck, rs.descriptor_order, F)
     guarded(ck, rs.shift_lower_bounds, F)
-
+    import rules_struct as rs_band
+    ck.rule("BAND", "every description of the band shifted by a single row/column move is the same interval", floor=10)
+    guarded(ck, rs_band.band_agree, F)
 
 def c30(ck, F, tier):
     import rules_attr as ra
